@@ -446,6 +446,9 @@ func (b *B) And(x, y *Term) *Term {
 	return b.mk(&Term{Op: "and", Args: []*Term{x, y}, S: BoolS()})
 }
 func (b *B) Or(x, y *Term) *Term {
+	if x.S.K != 'b' || y.S.K != 'b' {
+		panic("or of non-boolean terms")
+	}
 	if x.Op == "false" {
 		return y
 	}
@@ -878,6 +881,7 @@ func (p *smtPrinter) walk(t *Term) {
 // Query is one solver query: hypotheses, and a list of named conjuncts whose
 // conjunction is the goal.  The query asks for a model of hyps ∧ ¬(∧ goals).
 type Query struct {
+	Prefer []*Term // soft constraints: tried on top of a sat answer to get a replayable model
 	Hyps   []*Term
 	Goals  []NamedTerm
 	Values []NamedTerm // extra terms to evaluate in a model
